@@ -5,13 +5,18 @@
 //! Program points (= the runner step about to execute): 0 run_available store(false),
 //! 1 run_tick swap, 2 tick body, 3 run_tick load, 4 run_available swap, 5 yield_now,
 //! 6 AtomicWaker::register, 7 idle load, 8 about to return Pending, 9 parked (executor idle).
-//! Case: {"k":"wake","wakes":[[point, occurrence], ...]}: wake i fires the occurrence-th time
+//! Case: {"k":"wake","wakes":[[point, occurrence], ...],"inline":bool}: wake i fires the occurrence-th time
 //! (0-based) its point is reached.  Log: ["p",n] point reached, ["t"] tick body runs,
 //! ["w",i] wake i fired, ["park"] the runner is parked and not woken.
+//! With "inline": true the runner task's waker polls the runner IMMEDIATELY, inside `wake()`
+//! (an executor thread that picks the task up the moment it is woken), unless the runner is
+//! being polled already (then it is polled again right after).  A wake fired while the
+//! executor is idle (point 9) therefore gets the runner polled BETWEEN the statements of
+//! `WakeState::wake_by_ref` that follow `task_waker.wake()`: the order store-then-notify
+//! becomes observable.
 use std::cell::RefCell;
 use std::future::Future;
 use std::sync::Arc;
-use std::sync::atomic::{AtomicBool, Ordering};
 use std::task::{Context as TaskContext, Poll, Wake, Waker};
 
 use dfir_rs::scheduled::context::{Context, Dfir, TickClosure, verif};
@@ -64,14 +69,59 @@ impl TickClosure for CountTick {
     }
 }
 
-struct TaskWaker(AtomicBool);
+/// the runner task, its executor state, and the waker that drives it
+struct Exec {
+    fut: Option<std::pin::Pin<Box<dyn Future<Output = dfir_rs::Never>>>>,
+    polls: u32,
+}
+
+thread_local! {
+    static EXEC: RefCell<Exec> = const { RefCell::new(Exec { fut: None, polls: 0 }) };
+    static POLLING: std::cell::Cell<bool> = const { std::cell::Cell::new(false) };
+    static WOKEN: std::cell::Cell<bool> = const { std::cell::Cell::new(false) };
+    static INLINE: std::cell::Cell<bool> = const { std::cell::Cell::new(false) };
+}
+
+struct TaskWaker;
 impl Wake for TaskWaker {
     fn wake(self: Arc<Self>) {
-        self.0.store(true, Ordering::SeqCst);
+        self.wake_by_ref();
     }
     fn wake_by_ref(self: &Arc<Self>) {
-        self.0.store(true, Ordering::SeqCst);
+        WOKEN.with(|w| w.set(true));
+        if INLINE.with(|i| i.get()) && !POLLING.with(|p| p.get()) {
+            drive();
+        }
     }
+}
+
+/// poll the runner until it is pending with no wake-up outstanding
+fn drive() {
+    POLLING.with(|p| p.set(true));
+    let waker = Waker::from(Arc::new(TaskWaker));
+    let mut cx = TaskContext::from_waker(&waker);
+    loop {
+        WOKEN.with(|w| w.set(false));
+        let runaway = EXEC.with(|e| {
+            let mut e = e.borrow_mut();
+            e.polls += 1;
+            if e.polls > 200 {
+                return true;
+            }
+            match e.fut.as_mut().unwrap().as_mut().poll(&mut cx) {
+                Poll::Ready(_) => unreachable!(),
+                Poll::Pending => false,
+            }
+        });
+        if runaway {
+            SCHED.with(|s| s.borrow_mut().as_mut().unwrap().log.push(json!(["runaway"])));
+            break;
+        }
+        if !WOKEN.with(|w| w.get()) {
+            break;
+        }
+    }
+    POLLING.with(|p| p.set(false));
 }
 
 pub fn run_wake(case: &Value) -> Value {
@@ -86,36 +136,37 @@ pub fn run_wake(case: &Value) -> Value {
     SCHED.with(|s| {
         *s.borrow_mut() = Some(Sched { wakes, counts: [0; 10], log: Vec::new(), waker: Some(ext_waker) })
     });
+    INLINE.with(|i| i.set(case["inline"].as_bool().unwrap_or(false)));
+    WOKEN.with(|w| w.set(false));
+    POLLING.with(|p| p.set(false));
     verif::set_hook(point);
-    let mut df = Dfir::new(CountTick, ctx, None, None);
-    let task = Arc::new(TaskWaker(AtomicBool::new(false)));
-    let task_waker = Waker::from(task.clone());
-    let mut cx = TaskContext::from_waker(&task_waker);
-    let mut polls = 0u32;
-    {
-        let mut fut = std::pin::pin!(df.run());
-        loop {
-            polls += 1;
-            if polls > 200 {
-                SCHED.with(|s| s.borrow_mut().as_mut().unwrap().log.push(json!(["runaway"])));
-                break;
-            }
-            match fut.as_mut().poll(&mut cx) {
-                Poll::Ready(_) => unreachable!(),
-                Poll::Pending => {}
-            }
-            if task.0.swap(false, Ordering::SeqCst) {
-                continue; // woken (yield_now or the AtomicWaker): poll again
-            }
-            // parked and not woken: executor idle = point 9
-            point(9);
-            if task.0.swap(false, Ordering::SeqCst) {
-                continue;
-            }
-            SCHED.with(|s| s.borrow_mut().as_mut().unwrap().log.push(json!(["park"])));
+    // the Dfir is leaked into the boxed future so that the task can live in a thread local
+    let df: &'static mut Dfir<CountTick> = Box::leak(Box::new(Dfir::new(CountTick, ctx, None, None)));
+    EXEC.with(|e| {
+        let mut e = e.borrow_mut();
+        e.fut = Some(Box::pin(df.run()));
+        e.polls = 0;
+    });
+    drive();
+    loop {
+        if EXEC.with(|e| e.borrow().polls > 200) {
             break;
         }
+        // the runner is parked and not woken: executor idle = point 9
+        WOKEN.with(|w| w.set(false));
+        let before = EXEC.with(|e| e.borrow().polls);
+        point(9);
+        if WOKEN.with(|w| w.get()) {
+            drive(); // (not inline) the waker only marked the task
+            continue;
+        }
+        if EXEC.with(|e| e.borrow().polls) != before {
+            continue; // (inline) the runner was polled inside wake() and is parked again
+        }
+        SCHED.with(|s| s.borrow_mut().as_mut().unwrap().log.push(json!(["park"])));
+        break;
     }
+    EXEC.with(|e| e.borrow_mut().fut = None);
     verif::set_hook(|_| {});
     let sc = SCHED.with(|s| s.borrow_mut().take().unwrap());
     let unfired: Vec<usize> = sc.wakes.iter().enumerate().filter(|(_, w)| !w.2).map(|(i, _)| i).collect();
